@@ -14,7 +14,7 @@ pub fn run(tier: Tier) -> i32 {
     let lens: &[usize] = tier.pick(&[2, 3, 4, 5, 10, 25], &[2, 3, 4, 5, 6, 7, 8, 10, 15, 20, 25, 30, 35, 40]);
     let betas = [0.0, 0.1, 0.3, 0.5];
     let alphas = [0.0, 0.3, 0.6];
-    rep.set_rule("SCOPE: cepstrum lattice of C06 (scaled so (1+beta) x shape <= 2 Np) x beta {0,.1,.3,.5} x alpha {0,.3,.6} x vector lengths; second pulse of a stationary 2-frame run through the real Vocoder; oracle: log|H_beta|-log|H_0|-beta*sum_{m>=2} c_m cos(m w~) constant over frequency within 0.01 Np, impulse-response energy within 1%, beta=0 and length 2 bit-identical to no postfilter; distinct = (length, alpha, beta, cepstrum); non-trivial = beta>0 and length>2");
+    rep.set_rule("SCOPE: cepstrum lattice of C06 (scaled so (1+beta) x shape <= 2 Np) x beta {0,.1,.3,.5} x alpha {0,.3,.6} x vector lengths, plus tilt-dominated spectra (|c1| in {1.2,1.5,1.8}, |c2| in {.2,.4}, all sign pairs) for which the emphasis can lower the energy; second pulse of a stationary 2-frame run through the real Vocoder; oracle: log|H_beta|-log|H_0|-beta*sum_{m>=2} c_m cos(m w~) constant over frequency within 0.01 Np, impulse-response energy within 1%, beta=0 and length 2 bit-identical to no postfilter; distinct = (length, alpha, beta, cepstrum); non-trivial = beta>0 and length>2");
     rep.assume("lattice cepstra only; energy measured on the truncated pulse response (tail < 1e-7 of peak)");
     let mut cases: Vec<(usize, f64, f64, Vec<f64>)> = Vec::new();
     for &len in lens {
@@ -26,15 +26,39 @@ pub fn run(tier: Tier) -> i32 {
             }
         }
     }
+    // tilt-dominated spectra: a large first coefficient with a second one of either sign – for some of these the
+    // emphasis *lowers* the energy, so the renormalisation has to raise the gain (the lattice above only has cases
+    // where it lowers it). scale 0 = take the vector as it is.
+    for &len in &[3usize, 6] {
+        for &alpha in &alphas {
+            for &c1 in &[1.2, 1.5, 1.8] {
+                for &c2 in &[0.2, 0.4] {
+                    for (s1, s2) in [(1.0, 1.0), (1.0, -1.0), (-1.0, 1.0), (-1.0, -1.0)] {
+                        let mut p = vec![0.0; len];
+                        p[1] = s1 * c1;
+                        p[2] = s2 * c2;
+                        if len > 3 {
+                            p[3] = 0.03;
+                            p[4] = -0.02;
+                            p[5] = 0.01;
+                        }
+                        cases.push((len, alpha, 0.0, p));
+                    }
+                }
+            }
+        }
+    }
     let worst = Mutex::new((0.0f64, 0.0f64));
     let grid = freq_grid(nfreq);
     let nontriv = std::sync::atomic::AtomicU64::new(0);
     rep.par_for(cases.len(), 2, "C14 part 1", |i| {
         let (len, alpha, scale, pat) = &cases[i];
         let mut c = pat.clone();
-        let mx = shape_max(&c, *alpha);
-        for m in 1..*len {
-            c[m] *= scale / mx;
+        if *scale != 0.0 {
+            let mx = shape_max(&c, *alpha);
+            for m in 1..*len {
+                c[m] *= scale / mx;
+            }
         }
         c[0] = 0.3;
         let base = match pulse_frames(*len, *alpha, 0.0, &c, 2, 2_000_000) {
